@@ -598,6 +598,42 @@ pub fn run(ctx: &mut Ctx, multi: bool) {
     ctx.meta.insert("distribution".into(), serde_json::json!(hist));
     ctx.meta.insert("samples".into(), serde_json::json!(samples));
     if multi {
+        // blocks whose names meet after lower-casing (in every order, with names that sort between
+        // them, and against the collateral block's own query name): an accepted program must give
+        // every block a query of its own
+        let mut arrangements: Vec<Vec<&str>> = vec![];
+        for trio in [["Source", "gas", "source"], ["source", "SOURCE", "locked"], ["a", "Zed", "A"], ["Gas", "gas", "x"], ["Collateral", "source", "gas"], ["collateral", "Gas", "locked"], ["one", "two", "three"]] {
+            for perm in [[0usize, 1, 2], [0, 2, 1], [1, 0, 2], [1, 2, 0], [2, 0, 1], [2, 1, 0]] {
+                arrangements.push(perm.iter().map(|&i| trio[i]).collect());
+            }
+        }
+        let mut name_hist: BTreeMap<String, u64> = BTreeMap::new();
+        for names in &arrangements {
+            for with_collateral in [false, true] {
+                let mut src = String::from("party Alice;\ntx t() {\n");
+                for n in names {
+                    src.push_str(&format!("    input {} {{\n        from: Alice,\n        min_amount: Ada(2000000),\n    }}\n", n));
+                }
+                if with_collateral {
+                    src.push_str("    collateral {\n        from: Alice,\n        min_amount: Ada(2000000),\n    }\n");
+                }
+                src.push_str(&format!("    output {{\n        to: Alice,\n        amount: {} - fees,\n    }}\n}}\n", names.join(" + ")));
+                let lowered = crate::c05::lower_src(&src, "t");
+                let wanted = names.len() + with_collateral as usize;
+                match &lowered {
+                    None => *name_hist.entry("rejected".into()).or_default() += 1,
+                    Some(tx) => {
+                        let got = tx3_tir::reduce::find_queries(tx).len();
+                        *name_hist.entry(if got == wanted { "accepted_distinct_queries".into() } else { "accepted_shared_query".to_string() }).or_default() += 1;
+                        if got != wanted && impl_violations.len() < 12 {
+                            impl_violations.push(serde_json::json!({"index": -1, "ids": [109], "what": "an accepted program gives two of its blocks one query: they are bound to the same UTxOs",
+                                "blocks": names, "collateral_block": with_collateral, "queries": got, "source": src}));
+                        }
+                    }
+                }
+            }
+        }
+        ctx.meta.insert("block_name_arrangements".into(), serde_json::json!(name_hist));
         let (more, loop_hist) = crate::c05::c04_loop_probe(&mut r, if ctx.thorough { 3000 } else { 300 });
         impl_violations.extend(more);
         ctx.meta.insert("fee_loop_runs".into(), serde_json::json!(loop_hist));
